@@ -2008,6 +2008,10 @@ class Engine:
             return from_z3(z3.Select(cont.arr, i), cont.et)
         if isinstance(cont, z3.ArrayRef):
             return from_z3(z3.Select(cont, to_z3(idx)), _type_of_sort(cont.sort().range()))
+        if isinstance(cont, z3.ExprRef) and cont.sort() == U and isinstance(idx, str):
+            # a row / mapping the contract says nothing about, read with a literal key: an uninterpreted field of it
+            t = self.c.types.get('[' + idx + ']', 'U')
+            return from_z3(self.uf('item_' + idx, ['U'], t)(cont), parse_type(t))
         if isinstance(cont, z3.QuantifierRef) and cont.is_lambda():
             return from_z3(z3.Select(cont, to_z3(idx)), _type_of_sort(cont.sort().range()))  # an array given by a lambda term
         raise Undecided('subscript of %r' % (cont,))
